@@ -28,6 +28,22 @@ CHECKS = {
         note="Assumes the property's own precondition on names (set variant first, no repeated variant, distinct names). Trusted: symx proxies, z3.",
         design="DESIGN.md §1 C16",
     ),
+    "C17": dict(
+        category="other",
+        technique="solver-driven path exploration of the real show methods + live regexes translated to z3 regular languages (emptiness queries)",
+        text=(
+            "(a) The real QCOW2VTBackend.show and RamfileBackend._show are executed for every solver-chosen assignment of state presence to "
+            "1..3 images and memory files and every listing order (exhaustive, 39k paths); the result must equal the every-image intersection. "
+            "(b) The live compiled QEMU_ON_STATES_REGEX/QEMU_OFF_STATES_REGEX are translated from their re._parser trees into z3 regular "
+            "expressions (negative look-ahead = intersection with a complement) and six language queries are discharged against the grammar "
+            "of a qemu-img snapshot row: zero-size rows are matched by OFF and never by ON, nonzero rows by ON and never by OFF, and in every "
+            "decomposition the pattern admits group 1 is exactly the TAG column (marker-language construction). unsat = holds for every row of "
+            "the grammar, any length. Vacuity twins and a cross-check of grammar/translation against re on 72 realistic rows are included."
+        ),
+        note="Listing boundary (QemuImg.snapshot_list, os.listdir/stat, image backend) stubbed. Regex part: one-line model, ASCII classes, rows follow qemu-img's table grammar (>= 1 space between columns, size_to_str numbers). Trusted: smtgen translation (self-tested against re), z3 sequence/regex theory.",
+        design="DESIGN.md §1 C17",
+        engine="symx+smtgen",
+    ),
 }
 
 NOT_APPLICABLE = {
